@@ -41,7 +41,10 @@ def cases(chk):
     cs = []
     for cname in stub.MC_MIRROR:
         gen = "motifs" if stub.CONFIGS[cname]["custom"] else "fast"
-        for jds in stub.consistent_family(cname, 3, 2, 4):
+        fam = stub.consistent_family(cname, 3, 2, 4)
+        if cname == "c_hub_tri" and not thorough:
+            fam = fam[::9]
+        for jds in fam:
             cs.append({"gen": gen, "via": "direct", "cfg": cname, "jds": jds})
     # the statement's example: four degree-1 vertices, and every multiplicity pattern up to 6 stubs
     pats = [[1, 1, 1, 1], [2, 1, 1], [2, 2], [3, 1], [1, 1, 1, 1, 1, 1], [2, 2, 2], [3, 2, 1], [2, 1, 1, 1, 1], [4, 2],
@@ -74,7 +77,7 @@ def cases(chk):
 
 def _key(tr, v):
     c = tr["case"]
-    return "%s/%s/%s" % (c["gen"], c["cfg"], v["v"].split(":", 1)[-1])
+    return "%s/%s/%s" % (c["gen"], c["cfg"] if isinstance(c["cfg"], str) else "inline", v["v"].split(":", 1)[-1])
 
 
 def run(chk):
